@@ -38,12 +38,12 @@ type Ctx struct {
 	P    *Prog
 	Obs  []Ob
 	// free-form evidence
-	Anchors   map[string]string
-	Tables    map[string]interface{}
-	Sites     map[string][]string
-	Summaries []string // trusted library summaries used
+	Anchors    map[string]string
+	Tables     map[string]interface{}
+	Sites      map[string][]string
+	Summaries  []string // trusted library summaries used
 	NotDecided []string
-	Explain   []string // rule descriptions
+	Explain    []string // rule descriptions
 }
 
 func NewCtx(prop string, p *Prog) *Ctx {
@@ -246,18 +246,18 @@ func (c *Ctx) Finish(verifDir, tier string, seed int64, t0 time.Time, extra map[
 		"distinct_nontrivial": len(distinct),
 		"rule": "one obligation per (rule, construct): a rule of DESIGN.md §5 applied to a function, call site, table row or field resolved in the current tree; " +
 			"distinct = distinct (rule, construct) keys",
-		"samples":            samples,
-		"all_obligations":    c.Obs,
-		"packages":           len(c.P.Pkgs),
-		"functions_analysed": len(c.P.Funcs),
-		"anchors":            c.Anchors,
-		"tables":             c.Tables,
-		"sites":              c.Sites,
-		"library_summaries":  c.Summaries,
+		"samples":             samples,
+		"all_obligations":     c.Obs,
+		"packages":            len(c.P.Pkgs),
+		"functions_analysed":  len(c.P.Funcs),
+		"anchors":             c.Anchors,
+		"tables":              c.Tables,
+		"sites":               c.Sites,
+		"library_summaries":   c.Summaries,
 		"undecided_remainder": c.NotDecided,
-		"checker_cmd":        fmt.Sprintf("bin/taskverif -prop %s -tier %s", c.Prop, tier),
-		"trusted_base":       []string{"go/types and go/ssa of golang.org/x/tools v0.29.0", "the library summaries listed under library_summaries"},
-		"exhaustive":         false,
+		"checker_cmd":         fmt.Sprintf("bin/taskverif -prop %s -tier %s", c.Prop, tier),
+		"trusted_base":        []string{"go/types and go/ssa of golang.org/x/tools v0.29.0", "the library summaries listed under library_summaries"},
+		"exhaustive":          false,
 	}
 	for k, v := range extra {
 		cov[k] = v
